@@ -338,6 +338,40 @@ def run_workload(wl, policy_or_rng, want_detail=False, schedule_seed=None):
     return _run_workload(wl, policy_or_rng, config.reset_config_context)
 
 
+def ambient_process_state():
+    """Process-wide settings of the libraries pandera drives, which a validate call might override 'temporarily': after all
+    calls have finished they must be what they were (a permanently changed option changes what every later call returns)."""
+    import warnings as _w
+    import numpy as np
+    import pandas as pd
+    out = {"np.errstate": dict(np.geterr()), "warnings.filters": [repr(f)[:120] for f in _w.filters[:16]], "n_warnings_filters": len(_w.filters)}
+    for opt in ("future.no_silent_downcasting", "mode.copy_on_write", "mode.chained_assignment", "mode.use_inf_as_na", "future.infer_string"):
+        try:
+            out["pd." + opt] = pd.get_option(opt)
+        except Exception:  # noqa: BLE001 option unknown to this pandas
+            pass
+    return out
+
+
+_AMBIENT_FILTERS0 = []
+
+
+def _restore_ambient(amb0):
+    """After a reported leak: put the settings back so that later runs of this worker are not charged with it."""
+    import warnings as _w
+    import numpy as np
+    import pandas as pd
+    np.seterr(**amb0["np.errstate"])
+    for k, v in amb0.items():
+        if k.startswith("pd."):
+            try:
+                pd.set_option(k[3:], v)
+            except Exception:  # noqa: BLE001
+                pass
+    if _AMBIENT_FILTERS0:
+        _w.filters[:] = _AMBIENT_FILTERS0[0]
+
+
 def _run_in_cold_child(wl, policy_or_rng, schedule_seed):
     """Fresh interpreter; the scheduled run is its first pandera activity, the solo reference runs come afterwards."""
     import json
@@ -409,7 +443,11 @@ def _run_workload(wl, policy_or_rng, reset_config):
     sc = sched.Scheduler(rng, policy)
     for k in [k for k in _MON["logs"] if not isinstance(k, tuple)]:      # observations of earlier scheduled runs in this process
         del _MON["logs"][k]
+    amb0 = ambient_process_state()
+    import warnings as _w
+    _AMBIENT_FILTERS0[:] = [list(_w.filters)]
     outs = sc.run(fns)
+    amb1 = ambient_process_state()
     got = [o.canon for o in outs]
 
     vio = []
@@ -458,6 +496,12 @@ def _run_workload(wl, policy_or_rng, reset_config):
         reset_config()
     # the caller's frame must be in the state the solo run leaves it in (whether a solo validate may touch its argument at
     # all is C04's subject, not C07's: the statement here is "exactly what it would have when run alone")
+    if amb1 != amb0 and not true_cold:      # (in a cold process imports run inside the calls and may legitimately install filters)
+        keys = sorted(k for k in set(amb0) | set(amb1) if amb0.get(k) != amb1.get(k))
+        vio.append((f"process-state|{tag}|{','.join(keys)}",
+                    f"process-wide library settings after the concurrent calls differ from before: "
+                    f"{ {k: (amb0.get(k), amb1.get(k)) for k in keys if k != 'warnings.filters'} }"))
+        _restore_ambient(amb0)
     frames1 = frames1_cold if true_cold else [canon_obj(f) for f in frames]
     for i, f in enumerate(frames):
         if frames1[i] != ref_frames[i]:
